@@ -14,9 +14,15 @@ def consts(files=("f",), sessions=("S1", "S2"), uid=5, lines=4, commits=2, steps
             "Dev": list(dev)}
 
 
-G_ALL = ["G_C01_Exact", "G_C01_OnlyAdded", "G_C03_Notes", "G_C03_Blame", "G_C05_WellFormed"]
+G_ALL = ["G_C01_Exact", "G_C02_Carried", "G_C01_OnlyAdded", "G_C03_Notes", "G_C03_Blame", "G_C05_WellFormed"]
 
 EDIT_COMMIT = ("edit", "ckpt", "commit_all")
+
+PARTIAL = ("edit", "ckpt", "add", "add_hunk", "commit_all", "commit_staged", "commit_paths")
+DESTRUCTIVE = ("edit", "ckpt", "commit_all", "reset_hard", "reset_keep", "checkout_paths", "restore", "stash")
+CARRY = ("edit", "ckpt", "commit_all", "reset_keep", "stash")
+DECORATED = ("edit", "ckpt", "commit_all", "readonly", "ckpt_repeat")
+MIXED = ("edit", "ckpt", "add", "commit_all", "commit_staged", "reset_keep", "stash", "checkout_paths")
 
 PLANS = {
     "C01": {
@@ -37,6 +43,75 @@ PLANS = {
             dict(name="walks", consts=consts(files=("f", "g"), alphabet=EDIT_COMMIT, steps=24, uid=24, lines=12,
                                              commits=6), invariants=[], budget=600, variants=RENDERS,
                  simulate="num=400,depth=30", workers=1),
+        ],
+    },
+    "C02": {
+        "clauses": ["C02_Carried", "C03_Notes", "C03_Blame"],
+        "quick": [
+            dict(name="carry", consts=consts(alphabet=CARRY, steps=6, commits=3, lines=3), invariants=G_ALL,
+                 budget=300, variants=RENDERS[:4]),
+        ],
+        "thorough": [
+            dict(name="carry", consts=consts(alphabet=CARRY, steps=7, commits=3, lines=3), invariants=G_ALL,
+                 budget=2500, variants=RENDERS, per_tag=3, timeout=2400),
+            dict(name="carry2f", consts=consts(files=("f", "g"), alphabet=CARRY, steps=6, commits=3, lines=3),
+                 invariants=G_ALL, budget=1500, variants=RENDERS, timeout=2400),
+        ],
+    },
+    "C03": {
+        "clauses": ["C03_Notes", "C03_Blame"],
+        "quick": [
+            dict(name="destructive", consts=consts(alphabet=DESTRUCTIVE, steps=6, commits=3, lines=3),
+                 invariants=G_ALL, budget=320, variants=RENDERS[:4]),
+        ],
+        "thorough": [
+            dict(name="destructive", consts=consts(alphabet=DESTRUCTIVE, steps=7, commits=3, lines=3),
+                 invariants=G_ALL, budget=3000, variants=RENDERS, per_tag=3, timeout=2400),
+            dict(name="destructive2f", consts=consts(files=("f", "g"), alphabet=DESTRUCTIVE, steps=6, commits=3,
+                                                     lines=3), invariants=G_ALL, budget=1500, variants=RENDERS,
+                 timeout=2400),
+            dict(name="walks", consts=consts(files=("f", "g"), alphabet=DESTRUCTIVE + PARTIAL, steps=40, uid=30,
+                                             lines=10, commits=8), invariants=[], budget=500, variants=RENDERS,
+                 simulate="num=400,depth=45", workers=1),
+        ],
+    },
+    "C04": {
+        "clauses": ["C02_Carried", "C01_OnlyAdded", "C03_Notes"],
+        "quick": [
+            dict(name="partial", consts=consts(alphabet=PARTIAL, steps=6, commits=3, lines=4), invariants=G_ALL,
+                 budget=320, variants=RENDERS[:4]),
+        ],
+        "thorough": [
+            dict(name="partial", consts=consts(alphabet=PARTIAL, steps=7, commits=3, lines=4), invariants=G_ALL,
+                 budget=3000, variants=RENDERS, per_tag=2, timeout=3000, workers=12),
+            dict(name="partial2f", consts=consts(files=("f", "g"), alphabet=PARTIAL, steps=6, commits=3, lines=3),
+                 invariants=G_ALL, budget=1500, variants=RENDERS, timeout=3000, workers=12),
+        ],
+    },
+    "C05": {
+        "clauses": ["C05_WellFormed"],
+        "quick": [
+            dict(name="mixed", consts=consts(files=("f", "g"), alphabet=MIXED, steps=5, commits=3, lines=3, uid=4),
+                 invariants=G_ALL, budget=60, variants=[("plain", k) for k in
+                                                         ("plain", "subdir", "spaces", "unicode", "dashy", "quoted")],
+                 all_variants=True),
+        ],
+        "thorough": [
+            dict(name="mixed", consts=consts(files=("f", "g"), alphabet=MIXED, steps=6, commits=3, lines=3, uid=5),
+                 invariants=G_ALL, budget=400, variants=[(r, k) for r in ("plain", "hostile") for k in
+                                                          ("plain", "subdir", "spaces", "unicode", "dashy", "quoted")],
+                 all_variants=True, timeout=2400),
+        ],
+    },
+    "C14": {
+        "clauses": ["C14_Stutter", "C01_Exact"],
+        "quick": [
+            dict(name="decorated", consts=consts(alphabet=DECORATED, steps=6, commits=2, uid=4, lines=3),
+                 invariants=G_ALL, budget=320, variants=RENDERS[:3]),
+        ],
+        "thorough": [
+            dict(name="decorated", consts=consts(alphabet=DECORATED, steps=7, commits=2, uid=5, lines=3),
+                 invariants=G_ALL, budget=2500, variants=RENDERS, timeout=2400),
         ],
     },
 }
